@@ -11,7 +11,7 @@
    (arity, the Go function, vals.FromGo on every output).  qsum/qprod/Qpower/
    Qabs/Qfloor/... are plain rational arithmetic on Coq's Q. *)
 From Coq Require Import QArith Qabs Qround Qpower.
-From verif Require Import lib.Base model.C11_Num model.C11 proofs.C11_proofs.
+From verif Require Import lib.Base model.C11_Num model.C11 proofs.C11_proofs proofs.C11_range.
 Open Scope Z_scope.
 
 (* + of any number (0..) of exact arguments is the exact sum, canonical *)
@@ -104,23 +104,32 @@ Theorem C11_rounding_exact : forall md n, exactc n ->
 Proof. exact rounding_exact. Qed.
 Print Assumptions C11_rounding_exact.
 
-(* FULL STATEMENT (range_exact): for exact canonical start, end and step of any
-   representation and either direction, call CRange outputs exactly
-   start + k*step for k = 0 .. ceil((end-start)/step) - 1, each canonical, and never
-   ROutOfFuel.  Proved below in full (termination within the model's fuel included)
-   for machine ints, ascending, explicit step - the case in which the Go loop can
-   overflow: the values are start + k*step, all before the end, the next one would
-   not be, also when start + k*step passes 2^63 - 1 (the loop leaves instead of
-   wrapping).  The descending direction and the big-int/rational loops are covered
-   by the correspondence check only (reason in checks/C11.md). *)
-Theorem C11_range_exact_partial : forall s e st,
-  in_int s = true -> in_int e = true -> in_int st = true -> s <= e -> 0 < st ->
-  exists vs, call CRange [NInt s; NInt e] (Some (NInt st)) = RVals vs
-  /\ vs = map (fun k => NInt (s + Z.of_nat k * st)) (seq 0 (length vs))
-  /\ (forall k, (k < length vs)%nat -> s + Z.of_nat k * st < e)
-  /\ e <= s + Z.of_nat (length vs) * st.
-Proof. exact range_int_up_total. Qed.
-Print Assumptions C11_range_exact_partial.
+(* range on exact canonical arguments of every representation (machine ints, big
+   ints, rationals, mixed), ascending (start <= end, step > 0, default 1) and
+   descending (start > end, step < 0, default -1):
+     range_ok up s e st vs :=
+       (forall k < length vs, nth k vs is exact, canonical and == s + k*st,
+                              and s + k*st is before the end (< e ascending, > e descending))
+       /\ s + (length vs)*st has reached the end (>= e ascending, <= e descending)
+   i.e. the emitted list is start + k*step for exactly the k in range, nothing at or
+   past the end, in canonical form; the command terminates (never ROutOfFuel) -
+   including machine-int runs that pass 2^63-1 or -2^63, where the Go loop leaves
+   instead of wrapping. *)
+Theorem C11_range_exact : forall ns ne ostep,
+  exactc ns -> exactc ne -> (forall n, ostep = Some n -> exactc n) ->
+  let s := qv ns in let e := qv ne in
+  let up := Qle_bool s e in
+  let st := match ostep with Some n => qv n | None => qdef up end in
+  sgn_ok up st ->
+  exists vs, call CRange [ns; ne] ostep = RVals vs /\ range_ok up s e st vs.
+Proof. exact range_exact. Qed.
+Print Assumptions C11_range_exact.
+
+(* with one argument the start is the machine int 0 *)
+Theorem C11_range_one_arg : forall ne ostep,
+  call CRange [ne] ostep = call CRange [NInt 0; ne] ostep.
+Proof. exact range_one_arg. Qed.
+Print Assumptions C11_range_one_arg.
 
 (* the documented exact-zero rules hold with inexact arguments too *)
 Theorem C11_exact_zero_rules :
@@ -164,6 +173,10 @@ Proof. vm_compute. reflexivity. Qed.
 Example C11_ex_range : call CRange [NInt 9223372036854775800; NInt 9223372036854775807] (Some (NInt 5))
   = RVals [NInt 9223372036854775800; NInt 9223372036854775805].
 Proof. vm_compute. reflexivity. Qed.
+Example C11_ex_range_down : call CRange [NInt (-9223372036854775800); NInt (-9223372036854775808)] (Some (NInt (-5)))
+  = RVals [NInt (-9223372036854775800); NInt (-9223372036854775805)]
+  /\ call CRange [NRat (9#10)] (Some (NRat (3#10))) = RVals [NInt 0; NRat (3#10); NRat (3#5)].
+Proof. split; vm_compute; reflexivity. Qed.
 Example C11_ex_oracle_rejects :
   check_C11 CAdd [NInt 1; NInt 1] None (RVals [NBig 2]) = false
   /\ check_C11 CPow [NInt 0; NInt (-1)] None RPanic = false
